@@ -418,7 +418,7 @@ def c06_streams(tier, rng):
     return [StreamSet("persist", "asan", cases), StreamSet("longcodes", "asan", lc, timeout=120),
             StreamSet("scale", "asan", scale_cases(tier, rng, scale_ops_persist, phases=("loaded", "generic")), timeout=600),
             StreamSet("reload-every-size", "asan", sweep_cases(tier, rng), timeout=900),
-            StreamSet("rpdac-image", "asan", [c for c in rpdac_cases(tier, rng, 30 if tier == "thorough" else 10) if c[2] == "RPDAC"],
+            StreamSet("rpdac-image", "asan", [c for c in rpdac_cases(tier, rng, 30 if tier == "thorough" else 10) if c[2] in ("RPDAC", "HASHRPDAC")],
                       phase2=rpdac_phase2, timeout=60),
             StreamSet("rpfc-layer", "asan", rpfc_cases(tier, rng, 24 if tier == "thorough" else 6), phase2=rpfc_phase2, timeout=90)]
 
@@ -1466,6 +1466,10 @@ def rpdac_phase2(case, impl_lines):
             ops.append(["hfchk", strs, src[1] if len(src) > 1 else "-", str(case[3].get("hs", 0)), d.get("ts", "0"), d.get("occ", "-"), d.get("t", "0"),
                         d.get("mc", "0"), d.get("rules", "-"), d.get("cls", "-"), d.get("offs", "-"), d.get("loc", "-"), d.get("abs", "-")])
             k += 1
+        elif len(t) >= 4 and t[1] == "HI":
+            d = dict(x.split("=", 1) for x in t[2:])
+            ops.append(["hichk", d.get("img", "-"), d.get("el", "0"), d.get("ml", "0"), d.get("ts", "0"), d.get("n", "0"), d.get("occ", "-")])
+            k += 1
         elif len(t) >= 4 and t[1] == "RI":
             d = dict(x.split("=", 1) for x in t[2:])
             ops.append(["richk", d.get("img", "-"), d.get("el", "0"), d.get("ml", "0"), d.get("t", "0"), d.get("mc", "0"), d.get("rules", "-")])
@@ -1494,7 +1498,7 @@ def rpdac_cases(tier, rng, k):
         cases.append(("rq_%s" % name, "rpdac", "RPDAC", {}, S, [["rd", qh, ph], ["ri"], ["reload"], ["rd", qh, ph], ["ri"]]))
         for ov in (0, 25):
             hs = int(len(S) * (1 + (ov * 1.0 / 100.0)))
-            cases.append(("hq_%s_%d" % (name, ov), "rpdac", "HASHRPDAC", {"ov": ov, "hs": hs}, S, [["hd", qh], ["reload"], ["hd", qh]]))
+            cases.append(("hq_%s_%d" % (name, ov), "rpdac", "HASHRPDAC", {"ov": ov, "hs": hs}, S, [["hd", qh], ["hi"], ["reload"], ["hd", qh], ["hi"]]))
             cases.append(("hf_%s_%d" % (name, ov), "rpdac", "HASHRPF", {"ov": ov, "hs": hs}, S, [["hf", qh], ["reload"], ["hf", qh]]))
     return cases
 
